@@ -124,6 +124,21 @@ func c18GenTree(r *Rng) c18Tree {
 		t.Reqs[i].MCol = strings.Index(text, ".id") + 2
 		lines = append(lines, text)
 	}
+	// a third of the main files end with a module string on their last line and no line break after it
+	if len(rels) > 0 && r.Fork(0x656f66).Chance(1, 3) {
+		rel := rels[r.Fork(0x656f67).Intn(len(rels))]
+		p := strings.TrimSuffix(rel, ".lua")
+		if !strings.HasSuffix(p, "/init") && p != "init" {
+			if r.Fork(0x656f68).Bool() {
+				add("dofile", rel, "dofile-full-at-end-of-file")
+			} else {
+				add("require-nopar", strings.ReplaceAll(p, "/", "."), "full-path-dotted-at-end-of-file")
+			}
+			files["main.lua"] = strings.Join(lines, "\n")
+			t.Files = files
+			return t
+		}
+	}
 	lines = append(lines, "print(1)")
 	files["main.lua"] = strings.Join(lines, "\n") + "\n"
 	t.Files = files
